@@ -94,8 +94,22 @@ func c13TimedOnce(cs string, try int) string {
 	for _, t := range strings.Split(m["segs"], ",") {
 		segs = append(segs, atoi(t))
 	}
+	var waitFirst []bool // gap token w<ms>: first read every response that is due, then pause
 	for _, t := range strings.Split(m["gaps"], ",") {
+		w := strings.HasPrefix(t, "w")
+		if w {
+			t = t[1:]
+		}
+		waitFirst = append(waitFirst, w)
 		gaps = append(gaps, atoi(t))
+	}
+	slow := time.Duration(atoi(m["slow"])) * time.Millisecond // the upstream's answer to query 1 takes this long
+	pclose := -1                                              // segments before a pause longer than the idle timeout
+	if v, ok := m["pclose"]; ok {
+		pclose = atoi(v)
+	}
+	if slow > 0 {
+		c13t.up.setSlow(base+1, slow)
 	}
 	port, ok := c13t.ports[proto+"idle"]
 	if !ok || len(gaps) != len(segs) {
@@ -133,12 +147,50 @@ func c13TimedOnce(cs string, try int) string {
 	judged := true
 	limit := c13Idle * 80 / 100
 	pos, complete, frameEnd := 0, 0, 0
+	var firstWrite time.Time
+	afterPause := false
+	lost := false
 	for i, s := range segs {
+		if waitFirst[i] {
+			nfr := complete
+			if !c13WaitFor(slow+3*time.Second, func() bool { f, _, _ := rd.frames(); return len(f) >= nfr }) {
+				lost = true // an answer that is due never came: this is judged (and wrong), not a timing problem
+			}
+		}
+		t0 := time.Now()
 		time.Sleep(time.Duration(gaps[i]) * time.Millisecond)
+		if i == pclose {
+			// the deliberate over-long pause: the listener is expected to have closed the connection
+			if time.Since(t0) < c13Idle*13/10 {
+				judged = false
+			}
+			afterPause = true
+		}
 		if _, err := conn.Write(stream[pos : pos+s]); err != nil {
 			break
 		}
 		now := time.Now()
+		if i == 0 {
+			firstWrite = now
+		}
+		if afterPause || lost {
+			// nothing is judged by the clock any more (the listener closed as expected / an answer is missing)
+			for o := pos + 1; o <= pos+s; o++ {
+				if ends[o] && lost {
+					complete++
+				}
+			}
+			pos += s
+			continue
+		}
+		if waitFirst[i] && !lost {
+			// the follow-up of a query that was answered late must arrive before the deadline that was re-armed
+			// while it was outstanding expires: query 1 + slow + at most half the idle timeout
+			if now.Sub(firstWrite) > slow+c13Idle/2 {
+				judged = false
+			}
+			mark = now.Add(-time.Millisecond)
+		}
 		// frames completed by this segment
 		done := 0
 		for o := pos + 1; o <= pos+s; o++ {
@@ -161,7 +213,9 @@ func c13TimedOnce(cs string, try int) string {
 	}
 	_ = frameEnd
 	stall := false
-	if judged {
+	if judged && lost {
+		stall = true
+	} else if judged {
 		if !c13WaitFor(c13WaitD(), func() bool { f, _, _ := rd.frames(); return len(f) >= complete }) {
 			stall = true
 		}
@@ -224,6 +278,9 @@ type c13timed struct {
 	segs []int
 	gaps []int
 	late bool
+	// gapStr (when set) replaces gaps: tokens <ms> or w<ms>; extra is appended to the case (slow=, pclose=)
+	gapStr string
+	extra  string
 }
 
 // c13TimedScripts: hand-written shapes plus (thorough) random ones. Every interval between the completion of
@@ -238,20 +295,17 @@ func c13TimedScripts(r *rand.Rand, thorough bool) []c13timed {
 	}
 	var out []c13timed
 	// A: a whole query; quiet; one segment = whole query 2 + the first octets of the body of query 3; later the rest
-	out = append(out, c13timed{"timed-frame+bodystart", F(30, 28, 33), []int{32, 30 + 7, 28}, []int{100, 650, 620}, false})
+	out = append(out, c13timed{cat: "timed-frame+bodystart", fs: F(30, 28, 33), segs: []int{32, 30 + 7, 28}, gaps: []int{100, 650, 620}, late: false})
 	// B: ... + the first octet of the length prefix of query 3
-	out = append(out, c13timed{"timed-frame+halfprefix", F(30, 28, 33), []int{32, 30 + 1, 34}, []int{50, 640, 630}, false})
+	out = append(out, c13timed{cat: "timed-frame+halfprefix", fs: F(30, 28, 33), segs: []int{32, 30 + 1, 34}, gaps: []int{50, 640, 630}, late: false})
 	// C: several frames per segment, each segment ends inside a frame (prefix only / inside the body)
-	out = append(out, c13timed{"timed-multi", F(17, 19, 40, 25, 17, 31),
-		[]int{19 + 21 + 42 + 2, 25 + 19 + 10, 23}, []int{600, 600, 620}, false})
+	out = append(out, c13timed{cat: "timed-multi", fs: F(17, 19, 40, 25, 17, 31), segs: []int{19 + 21 + 42 + 2, 25 + 19 + 10, 23}, gaps: []int{600, 600, 620}, late: false})
 	// D: quiet right after the accept, then a query and the start of the next one in one segment
-	out = append(out, c13timed{"timed-quietstart", F(24, 45), []int{26 + 20, 27}, []int{650, 600}, false})
+	out = append(out, c13timed{cat: "timed-quietstart", fs: F(24, 45), segs: []int{26 + 20, 27}, gaps: []int{650, 600}, late: false})
 	// E: a long stream in which EVERY segment ends inside a frame
-	out = append(out, c13timed{"timed-alwayssplit", F(20, 20, 20, 20, 20, 20),
-		[]int{22 + 5, 22, 22, 22, 22, 17}, []int{300, 420, 430, 440, 450, 460}, false})
+	out = append(out, c13timed{cat: "timed-alwayssplit", fs: F(20, 20, 20, 20, 20, 20), segs: []int{22 + 5, 22, 22, 22, 22, 17}, gaps: []int{300, 420, 430, 440, 450, 460}, late: false})
 	// F: every frame split in two, pause inside and between
-	out = append(out, c13timed{"timed-splitall", F(26, 26, 26),
-		[]int{1, 27, 2, 26, 15, 13}, []int{300, 320, 310, 330, 300, 340}, false})
+	out = append(out, c13timed{cat: "timed-splitall", fs: F(26, 26, 26), segs: []int{1, 27, 2, 26, 15, 13}, gaps: []int{300, 320, 310, 330, 300, 340}, late: false})
 	if thorough {
 		for i := 0; i < 14; i++ {
 			k := 2 + r.Intn(6)
@@ -295,11 +349,20 @@ func c13TimedScripts(r *rand.Rand, thorough bool) []c13timed {
 				}
 				pos += s
 			}
-			out = append(out, c13timed{"timed-rand", fs, segs, gaps, false})
+			out = append(out, c13timed{cat: "timed-rand", fs: fs, segs: segs, gaps: gaps})
 		}
 		// not judged: a pause longer than the idle timeout (the listener may close the connection)
-		out = append(out, c13timed{"timed-late-notjudged", F(30, 28), []int{32, 30}, []int{100, 1400}, true})
+		out = append(out, c13timed{cat: "timed-late-notjudged", fs: F(30, 28), segs: []int{32, 30}, gaps: []int{100, 1400}, late: true})
+		// the answer takes 2.3 idle timeouts (the deadline fires twice while the client waits)
+		out = append(out, c13timed{cat: "timed-slow-answer-2", fs: F(30, 28, 17), segs: []int{32, 30, 19}, gapStr: "100,w200,300", extra: "slow=2300"})
+		// a slow and a fast query pipelined in one segment, a third one after both answers
+		out = append(out, c13timed{cat: "timed-slow-pipelined", fs: F(30, 28, 20), segs: []int{62, 22}, gapStr: "100,w200", extra: "slow=1300"})
 	}
+	// the upstream answers after 1.3 x idle: the client is WAITING, not idle; it is answered, the connection stays
+	// open and takes another query
+	out = append(out, c13timed{cat: "timed-slow-answer", fs: F(30, 28), segs: []int{32, 30}, gapStr: "100,w200", extra: "slow=1300"})
+	// nothing in flight, a frame half sent, then silence for 1.6 x idle: the listener closes (n > 0 / timer)
+	out = append(out, c13timed{cat: "timed-partial-then-silence", fs: F(30, 28), segs: []int{32, 7, 23}, gapStr: "100,200,1600", extra: "pclose=2"})
 	return out
 }
 
@@ -313,10 +376,19 @@ func c13TimedGen(r *rand.Rand, thorough bool, emit func(c, cat string)) {
 			gs := make([]string, len(sc.gaps))
 			for i := range sc.segs {
 				ss[i] = strconv.Itoa(sc.segs[i])
+			}
+			for i := range sc.gaps {
 				gs[i] = strconv.Itoa(sc.gaps[i])
 			}
+			gstr := strings.Join(gs, ",")
+			if sc.gapStr != "" {
+				gstr = sc.gapStr
+			}
 			cs := fmt.Sprintf("proto=%s max=100 hold=4 base=%d fr=%s segs=%s gaps=%s", proto, base, c13FrStr(sc.fs),
-				strings.Join(ss, ","), strings.Join(gs, ","))
+				strings.Join(ss, ","), gstr)
+			if sc.extra != "" {
+				cs += " " + sc.extra
+			}
 			if sc.late {
 				cs += " late=1"
 			}
